@@ -673,50 +673,32 @@ theorem synced_delGlyph {s : State} (h : Synced s) (ln gn : String) : Synced (de
         simp only
         by_cases hc : gn ∈ b.contents
         · simp only [hc, if_true]
-          cases hss : schedStamp s l b gn with
-          | error e =>
-            simp only
-            refine synced_setLayer h ln _ fun dl hdl => ?_
-            obtain ⟨_, b', hb1, _, hb3, _⟩ := facts dl hdl
-            rw [hgs] at hb1
-            injection hb1 with hb1
-            subst hb1
-            unfold schedStamp at hss
-            split at hss
-            · cases hss
-            · simp [hb3] at hss
-          | ok st =>
-            simp only
-            apply synced_afterDelete
-            refine synced_setLayer h ln _ fun dl hdl => ?_
-            obtain ⟨hs, b', hb1, hb2, hb3, _, f', hf'⟩ := facts dl hdl
-            rw [hgs] at hb1
-            injection hb1 with hb1
-            subst hb1
-            unfold schedStamp at hss
-            split at hss
-            · rename_i f hbind
-              injection hss with hss
-              subst hss
-              cases hg : AL.get? l.glyphs gn with
-              | none => simp [hg] at hbind
-              | some g =>
-                simp [hg] at hbind
-                obtain ⟨f2, hf2, hb2'⟩ := hs.glyphs gn g f (AL.mem_of_get? hg) hbind
-                rw [hf'] at hf2
-                injection hf2 with hf2
-                subst hf2
-                have key := layerSynced_del hs hf' hb2'
-                rw [hgs] at key
-                exact key
-            · simp only [hb3, Bool.not_true, Bool.false_eq_true, if_false] at hss
-              injection hss with hss
-              subst hss
-              obtain ⟨f, hv, hbl⟩ := disk_glif_in_view h hdl hf'
-              rw [hb2, hv]
-              have key := layerSynced_del hs hf' hbl
+          apply synced_afterDelete
+          refine synced_setLayer h ln _ fun dl hdl => ?_
+          obtain ⟨hs, b', hb1, hb2, hb3, _, f', hf'⟩ := facts dl hdl
+          rw [hgs] at hb1
+          injection hb1 with hb1
+          subst hb1
+          unfold schedStamp
+          split
+          · rename_i f hbind
+            cases hg : AL.get? l.glyphs gn with
+            | none => simp [hg] at hbind
+            | some g =>
+              simp [hg] at hbind
+              obtain ⟨f2, hf2, hb2'⟩ := hs.glyphs gn g f (AL.mem_of_get? hg) hbind
+              rw [hf'] at hf2
+              injection hf2 with hf2
+              subst hf2
+              have key := layerSynced_del hs hf' hb2'
               rw [hgs] at key
               exact key
+          · simp only [hb3, Bool.not_true, Bool.false_eq_true, if_false]
+            obtain ⟨f, hv, hbl⟩ := disk_glif_in_view h hdl hf'
+            rw [hb2, hv]
+            have key := layerSynced_del hs hf' hbl
+            rw [hgs] at key
+            exact key
         · simp only [hc, if_false]
           apply synced_afterDelete
           refine synced_setLayer h ln _ fun dl hdl => ?_
@@ -1968,7 +1950,9 @@ theorem ofDisk_fst (s : State) (d : Option Disk) : (ofDisk s d).1 =
       | none => s) := by
   cases d <;> rfl
 
-theorem synced_step_aux {s : State} (h : Synced s) (op : Op) (hq : Quiet op) : Synced (step s op).1 := by
+/-- every quiet operation other than the in-place save (for which see `Lemmas/ExtSave.lean`) -/
+theorem synced_step_nosave {s : State} (h : Synced s) (op : Op) (hq : Quiet op) (hs : ∀ a b, op ≠ .save a b) :
+    Synced (step s op).1 := by
   cases op with
   | touch p => exact synced_loadPart h p
   | pset p v => exact synced_psetPart h p v
@@ -2055,11 +2039,12 @@ theorem synced_step_aux {s : State} (h : Synced s) (op : Op) (hq : Quiet op) : S
     exact synced_lastReport (synced_afterTest h) _
   | reloadpart p => exact synced_reloadPart h p
   | gnew _ _ => exact absurd hq (by simp [Quiet])
+  | grename _ _ _ => exact absurd hq (by simp [Quiet])
   | lnew _ => exact absurd hq (by simp [Quiet])
   | ldel _ => exact absurd hq (by simp [Quiet])
   | lorder _ => exact absurd hq (by simp [Quiet])
   | ldefault _ => exact absurd hq (by simp [Quiet])
-  | save _ _ => exact absurd hq (by simp [Quiet])
+  | save a b => exact absurd rfl (hs a b)
   | saveas tD tS =>
     rw [step_saveas]
     cases hr : saveAs s tD tS with
@@ -2075,12 +2060,14 @@ theorem synced_step_aux {s : State} (h : Synced s) (op : Op) (hq : Quiet op) : S
   | reloadglyphs _ _ => exact absurd hq (by simp [Quiet])
   | reloadfiles _ _ => exact absurd hq (by simp [Quiet])
 
-theorem synced_run_aux {s : State} (h : Synced s) (ops : List Op) (hq : ∀ op ∈ ops, Quiet op) : Synced (run s ops) := by
+theorem synced_run_nosave {s : State} (h : Synced s) (ops : List Op) (hq : ∀ op ∈ ops, Quiet op)
+    (hs : ∀ op ∈ ops, ∀ a b, op ≠ .save a b) : Synced (run s ops) := by
   induction ops generalizing s with
   | nil => exact h
   | cons op rest ih =>
     simp only [run, List.foldl_cons]
-    exact ih (synced_step_aux h op (hq op (by simp))) fun o ho => hq o (by simp [ho])
+    exact ih (synced_step_nosave h op (hq op (by simp)) (hs op (by simp))) (fun o ho => hq o (by simp [ho]))
+      (fun o ho => hs o (by simp [ho]))
 
 
 /-! ## Exactness: what each entry of the report means -/
